@@ -85,8 +85,12 @@ LogBase(e) == IF e.inrw /\ e.rwstage \in AfterLogTrunc THEN e.acked
 
 LostWrites(e) == LET i == LastDone(e) IN i > 0 /\ rws[i].trunc > rws[i].at
 
+\* orig = TRUE is the time-faithful restore the finding AofReplayClock is measured against: every logged
+\* command is replayed at the instant it was executed AND the checkpoint is loaded as it stood then (the code
+\* drops the checkpoint's keys that have expired by restore time before it replays - a later logged SET of
+\* such a key, which kept the old deadline when it ran, then brings the key back without a deadline)
 Faithful(e, lossy, orig) ==
-    Replay(Checkpoint(PreAt(e, lossy), e.now, FALSE), Take(LoggedIn(LogBase(e), e.exec), e.recs), e.now, orig)
+    Replay(Checkpoint(PreAt(e, lossy), IF orig THEN 0 ELSE e.now, FALSE), Take(LoggedIn(LogBase(e), e.exec), e.recs), e.now, orig)
 
 Lo(e) == IF e.powerloss /\ e.sync # "always" THEN 0 ELSE e.acked
 
